@@ -2,6 +2,7 @@
 mod backend;
 mod build;
 mod conc;
+mod conform;
 mod hdr;
 mod lru;
 mod pure;
@@ -428,6 +429,11 @@ fn main() {
             }
             write_lines(&format!("{}/seq.impl", out), &imp);
             println!("malformed cases={}", n);
+        }
+        "conform" => {
+            let lines = conform::run(seed, n, &out);
+            write_lines(&format!("{}/conform.impl", out), &lines);
+            println!("conform lines={}", lines.len());
         }
         "lru" => {
             // correspondence of the cache model with the real AsyncLruCache
